@@ -89,6 +89,7 @@ def observer(got, pred, sp, call, sg, prog, ctx, part):
 
 def run(report, tier):
     apirun.run_config(report, 'MC_C01', observer=observer, report_kinds=('S',), overrides={'Want': '<-MC_WantH'})
+    apirun.run_config(report, 'MC_C01M', observer=observer, report_kinds=('S',), overrides={'Want': '<-MC_WantH'})
     return report.finish(
         rule='every Api program of <= MaxCalls calls with a scalar result over <= 3 variables: compute_hessian (every entry, both '
              'triangles) and compile_hessian for every permutation / superset variable list at up to 3 points regular for the '
